@@ -33,7 +33,11 @@ RULE = (
     "firewall with one host per zone; a frame sent by a zone's host must be judged by the two lists the documentation names "
     "for its (ingress zone, egress zone) pair - ingress side first, egress side only when permitted - asserted through the "
     "hit counters of all six lists and the port the firewall forwards on; all six pairs x permit/deny/implicit on each "
-    "side x opposite catch-alls on the other lists are enumerated, random disagreeing lists come from Hypothesis. Episode "
+    "side x opposite catch-alls on the other lists are enumerated, each pair once with a directly attached destination and "
+    "once with a destination in a subnet that is only routed through the egress zone's port (the egress port the route "
+    "selects names the egress-side list); random disagreeing lists come from Hypothesis. Router traffic: frames driven "
+    "through router r0 in both directions are judged by its one list - every packet, including UDP datagrams to port 219 "
+    "with a non-ARP payload; only a genuine ARP packet (`send_arp`) moves no counter. Episode "
     "mode (`reset` ops): the scenario is built through PrimaiteGymEnv and after every env.reset() each list must again be "
     "exactly the scenario-loaded one (positions 0/21/22/23 enumerated on router and firewall lists), with verdicts and "
     "counters following the reference. Non-trivial (rule list, packet) "
@@ -55,7 +59,9 @@ ASSUMPTIONS = [
     "external_outbound for the zone it leaves to; if the ingress-side list denies, a hit on the egress-side list's deciding "
     "rule is tolerated (not required); the firewall's ARP cache is pre-filled with the three hosts, hit counters present "
     "before the first read-back (ARP sent while the network is being built) are the baseline; ICMP on the wire is an echo "
-    "reply with a payload so that the destination host stays silent; UDP port 219 is not sent (ARP frames need an ARP payload)",
+    "reply with a payload so that the destination host stays silent; tcp/udp frames carry no payload (Frame.payload's "
+    "default), also on UDP port 219, where only a frame whose payload is an ARPPacket counts as ARP; static routes use the "
+    "zone's host as next hop (what matters is the egress port the route selects)",
     "episode mode: env.reset() rebuilds the simulation from the same scenario, so the model restarts from the scenario's "
     "rules (router defaults at 22/23 only where the scenario is silent) with zero hit counters",
     "port 0 (PORT_LOOKUP['NONE']) in a rule is convention-open: the oracle accepts 'specified port 0' or 'unspecified' "
